@@ -51,3 +51,186 @@ package storage
 //@   ensures [C18.maybe-rollback] !implements(storage, Transactional) ==> err == nil && tx_unchanged() && code_active == old(code_active) && acc_exists == old(acc_exists) && ref_exists == old(ref_exists) && ref_active == old(ref_active) && dev_live == old(dev_live) && faults == old(faults)
 //@   ensures [C18.maybe-rollback] implements(storage, Transactional) && err == nil ==> tx_open == old(tx_open) - 1 && tx_rolledback == old(tx_rolledback) + 1 && code_active == snap_code_active && acc_exists == snap_acc_exists && ref_exists == snap_ref_exists && ref_active == snap_ref_active && dev_live == snap_dev_live && faults == old(faults)
 //@   ensures [C18.maybe-rollback] implements(storage, Transactional) && err != nil ==> tx_open == old(tx_open) && tx_rolledback == old(tx_rolledback) && code_active == old(code_active) && acc_exists == old(acc_exists) && ref_exists == old(ref_exists) && ref_active == old(ref_active) && dev_live == old(dev_live) && faults == old(faults) + 1
+
+// ---------------------------------------------------------------- C19: lock discipline of the reference store
+// Every map of MemoryStore is guarded by the mutex named next to it: a read needs the mutex held (R or W), a
+// write needs it held for writing. Mutexes are acquired in rank order (request-id index before table) and all
+// are released on every exit. Proved per method, this holds for every interleaving of calls.
+
+//@ guards [C19.guarded-access] MemoryStore clientsMutex : Clients
+//@ guards [C19.guarded-access] MemoryStore authorizeCodesMutex : AuthorizeCodes
+//@ guards [C19.guarded-access] MemoryStore idSessionsMutex : IDSessions
+//@ guards [C19.guarded-access] MemoryStore accessTokensMutex : AccessTokens
+//@ guards [C19.guarded-access] MemoryStore refreshTokensMutex : RefreshTokens
+//@ guards [C19.guarded-access] MemoryStore deviceAuthsMutex : DeviceAuths
+//@ guards [C19.guarded-access] MemoryStore pkcesMutex : PKCES
+//@ guards [C19.guarded-access] MemoryStore usersMutex : Users
+//@ guards [C19.guarded-access] MemoryStore blacklistedJTIsMutex : BlacklistedJTIs
+//@ guards [C19.guarded-access] MemoryStore accessTokenRequestIDsMutex : AccessTokenRequestIDs
+//@ guards [C19.guarded-access] MemoryStore refreshTokenRequestIDsMutex : RefreshTokenRequestIDs
+//@ guards [C19.guarded-access] MemoryStore deviceAuthsRequestIDsMutex : DeviceCodesRequestIDs, UserCodesRequestIDs
+//@ guards [C19.guarded-access] MemoryStore issuerPublicKeysMutex : IssuerPublicKeys
+//@ guards [C19.guarded-access] MemoryStore parSessionsMutex : PARSessions
+//@ axiom memorystore-lock-ranks forall s *MemoryStore :: s != nil ==> mrank(addr(s.clientsMutex)) == 2 && mrank(addr(s.authorizeCodesMutex)) == 2 && mrank(addr(s.idSessionsMutex)) == 2 && mrank(addr(s.accessTokensMutex)) == 2 && mrank(addr(s.refreshTokensMutex)) == 2 && mrank(addr(s.deviceAuthsMutex)) == 2 && mrank(addr(s.pkcesMutex)) == 2 && mrank(addr(s.usersMutex)) == 2 && mrank(addr(s.blacklistedJTIsMutex)) == 2 && mrank(addr(s.accessTokenRequestIDsMutex)) == 1 && mrank(addr(s.refreshTokenRequestIDsMutex)) == 1 && mrank(addr(s.deviceAuthsRequestIDsMutex)) == 1 && mrank(addr(s.issuerPublicKeysMutex)) == 2 && mrank(addr(s.parSessionsMutex)) == 2
+//@ spec func store_wf(s *MemoryStore) bool = s != nil && s.Clients != nil && s.AuthorizeCodes != nil && s.IDSessions != nil && s.AccessTokens != nil && s.RefreshTokens != nil && s.DeviceAuths != nil && s.PKCES != nil && s.Users != nil && s.BlacklistedJTIs != nil && s.AccessTokenRequestIDs != nil && s.RefreshTokenRequestIDs != nil && s.DeviceCodesRequestIDs != nil && s.UserCodesRequestIDs != nil && s.IssuerPublicKeys != nil && s.PARSessions != nil
+//@ spec func canlock(m V) bool = held[m] == 0 && (forall m2 V :: held[m2] != 0 ==> mrank(m2) < mrank(m))
+
+//@ func (*MemoryStore).GetClient
+//@   requires store_wf(s) && held[addr(s.clientsMutex)] == 0 && (forall m2 V :: held[m2] != 0 ==> mrank(m2) < 2)
+//@   modifies held
+//@   ensures [C19.locks-released] held == old(held)
+
+//@ func (*MemoryStore).ClientAssertionJWTValid
+//@   requires store_wf(s) && held[addr(s.blacklistedJTIsMutex)] == 0 && (forall m2 V :: held[m2] != 0 ==> mrank(m2) < 2)
+//@   modifies held
+//@   ensures [C19.locks-released] held == old(held)
+
+//@ func (*MemoryStore).SetClientAssertionJWT
+//@   requires store_wf(s) && held[addr(s.blacklistedJTIsMutex)] == 0 && (forall m2 V :: held[m2] != 0 ==> mrank(m2) < 2)
+//@   modifies held
+//@   ensures [C19.locks-released] held == old(held)
+
+//@ func (*MemoryStore).CreateAuthorizeCodeSession
+//@   requires store_wf(s) && held[addr(s.authorizeCodesMutex)] == 0 && (forall m2 V :: held[m2] != 0 ==> mrank(m2) < 2)
+//@   modifies held
+//@   ensures [C19.locks-released] held == old(held)
+
+//@ func (*MemoryStore).GetAuthorizeCodeSession
+//@   requires store_wf(s) && held[addr(s.authorizeCodesMutex)] == 0 && (forall m2 V :: held[m2] != 0 ==> mrank(m2) < 2)
+//@   modifies held
+//@   ensures [C19.locks-released] held == old(held)
+
+//@ func (*MemoryStore).InvalidateAuthorizeCodeSession
+//@   requires store_wf(s) && held[addr(s.authorizeCodesMutex)] == 0 && (forall m2 V :: held[m2] != 0 ==> mrank(m2) < 2)
+//@   modifies held
+//@   ensures [C19.locks-released] held == old(held)
+
+//@ func (*MemoryStore).CreatePKCERequestSession
+//@   requires store_wf(s) && held[addr(s.pkcesMutex)] == 0 && (forall m2 V :: held[m2] != 0 ==> mrank(m2) < 2)
+//@   modifies held
+//@   ensures [C19.locks-released] held == old(held)
+
+//@ func (*MemoryStore).GetPKCERequestSession
+//@   requires store_wf(s) && held[addr(s.pkcesMutex)] == 0 && (forall m2 V :: held[m2] != 0 ==> mrank(m2) < 2)
+//@   modifies held
+//@   ensures [C19.locks-released] held == old(held)
+
+//@ func (*MemoryStore).DeletePKCERequestSession
+//@   requires store_wf(s) && held[addr(s.pkcesMutex)] == 0 && (forall m2 V :: held[m2] != 0 ==> mrank(m2) < 2)
+//@   modifies held
+//@   ensures [C19.locks-released] held == old(held)
+
+//@ func (*MemoryStore).CreateAccessTokenSession
+//@   requires store_wf(s) && held[addr(s.accessTokenRequestIDsMutex)] == 0 && held[addr(s.accessTokensMutex)] == 0 && (forall m2 V :: held[m2] != 0 ==> mrank(m2) < 1)
+//@   modifies held
+//@   ensures [C19.locks-released] held == old(held)
+
+//@ func (*MemoryStore).GetAccessTokenSession
+//@   requires store_wf(s) && held[addr(s.accessTokensMutex)] == 0 && (forall m2 V :: held[m2] != 0 ==> mrank(m2) < 2)
+//@   modifies held
+//@   ensures [C19.locks-released] held == old(held)
+
+//@ func (*MemoryStore).DeleteAccessTokenSession
+//@   requires store_wf(s) && held[addr(s.accessTokensMutex)] == 0 && (forall m2 V :: held[m2] != 0 ==> mrank(m2) < 2)
+//@   modifies held
+//@   ensures [C19.locks-released] held == old(held)
+
+//@ func (*MemoryStore).CreateRefreshTokenSession
+//@   requires store_wf(s) && held[addr(s.refreshTokenRequestIDsMutex)] == 0 && held[addr(s.refreshTokensMutex)] == 0 && (forall m2 V :: held[m2] != 0 ==> mrank(m2) < 1)
+//@   modifies held
+//@   ensures [C19.locks-released] held == old(held)
+
+//@ func (*MemoryStore).GetRefreshTokenSession
+//@   requires store_wf(s) && held[addr(s.refreshTokensMutex)] == 0 && (forall m2 V :: held[m2] != 0 ==> mrank(m2) < 2)
+//@   modifies held
+//@   ensures [C19.locks-released] held == old(held)
+
+//@ func (*MemoryStore).DeleteRefreshTokenSession
+//@   requires store_wf(s) && held[addr(s.refreshTokensMutex)] == 0 && (forall m2 V :: held[m2] != 0 ==> mrank(m2) < 2)
+//@   modifies held
+//@   ensures [C19.locks-released] held == old(held)
+
+//@ func (*MemoryStore).Authenticate
+//@   requires store_wf(s) && held[addr(s.usersMutex)] == 0 && (forall m2 V :: held[m2] != 0 ==> mrank(m2) < 2)
+//@   modifies held
+//@   ensures [C19.locks-released] held == old(held)
+
+//@ func (*MemoryStore).RevokeRefreshToken
+//@   requires store_wf(s) && held[addr(s.refreshTokenRequestIDsMutex)] == 0 && held[addr(s.refreshTokensMutex)] == 0 && (forall m2 V :: held[m2] != 0 ==> mrank(m2) < 1)
+//@   modifies held
+//@   ensures [C19.locks-released] held == old(held)
+
+//@ func (*MemoryStore).RevokeAccessToken
+//@   requires store_wf(s) && held[addr(s.accessTokenRequestIDsMutex)] == 0 && held[addr(s.accessTokensMutex)] == 0 && (forall m2 V :: held[m2] != 0 ==> mrank(m2) < 1)
+//@   modifies held
+//@   ensures [C19.locks-released] held == old(held)
+
+//@ func (*MemoryStore).GetPublicKey
+//@   requires store_wf(s) && held[addr(s.issuerPublicKeysMutex)] == 0 && (forall m2 V :: held[m2] != 0 ==> mrank(m2) < 2)
+//@   modifies held
+//@   ensures [C19.locks-released] held == old(held)
+
+//@ func (*MemoryStore).GetPublicKeyScopes
+//@   requires store_wf(s) && held[addr(s.issuerPublicKeysMutex)] == 0 && (forall m2 V :: held[m2] != 0 ==> mrank(m2) < 2)
+//@   modifies held
+//@   ensures [C19.locks-released] held == old(held)
+
+//@ func (*MemoryStore).IsJWTUsed
+//@   requires store_wf(s) && held[addr(s.blacklistedJTIsMutex)] == 0 && (forall m2 V :: held[m2] != 0 ==> mrank(m2) < 2)
+//@   modifies held
+//@   ensures [C19.locks-released] held == old(held)
+
+//@ func (*MemoryStore).MarkJWTUsedForTime
+//@   requires store_wf(s) && held[addr(s.blacklistedJTIsMutex)] == 0 && (forall m2 V :: held[m2] != 0 ==> mrank(m2) < 2)
+//@   modifies held
+//@   ensures [C19.locks-released] held == old(held)
+
+//@ func (*MemoryStore).CreatePARSession
+//@   requires store_wf(s) && held[addr(s.parSessionsMutex)] == 0 && (forall m2 V :: held[m2] != 0 ==> mrank(m2) < 2)
+//@   modifies held
+//@   ensures [C19.locks-released] held == old(held)
+
+//@ func (*MemoryStore).GetPARSession
+//@   requires store_wf(s) && held[addr(s.parSessionsMutex)] == 0 && (forall m2 V :: held[m2] != 0 ==> mrank(m2) < 2)
+//@   modifies held
+//@   ensures [C19.locks-released] held == old(held)
+
+//@ func (*MemoryStore).DeletePARSession
+//@   requires store_wf(s) && held[addr(s.parSessionsMutex)] == 0 && (forall m2 V :: held[m2] != 0 ==> mrank(m2) < 2)
+//@   modifies held
+//@   ensures [C19.locks-released] held == old(held)
+
+//@ func (*MemoryStore).RotateRefreshToken
+//@   requires store_wf(s) && held[addr(s.refreshTokenRequestIDsMutex)] == 0 && held[addr(s.refreshTokensMutex)] == 0 && held[addr(s.accessTokenRequestIDsMutex)] == 0 && held[addr(s.accessTokensMutex)] == 0 && (forall m2 V :: held[m2] != 0 ==> mrank(m2) < 1)
+//@   modifies held
+//@   ensures [C19.locks-released] held == old(held)
+
+//@ func (*MemoryStore).CreateDeviceAuthSession
+//@   requires store_wf(s) && held[addr(s.deviceAuthsRequestIDsMutex)] == 0 && held[addr(s.deviceAuthsMutex)] == 0 && (forall m2 V :: held[m2] != 0 ==> mrank(m2) < 1)
+//@   modifies held
+//@   ensures [C19.locks-released] held == old(held)
+
+//@ func (*MemoryStore).GetDeviceCodeSession
+//@   requires store_wf(s) && held[addr(s.deviceAuthsMutex)] == 0 && (forall m2 V :: held[m2] != 0 ==> mrank(m2) < 2)
+//@   modifies held
+//@   ensures [C19.locks-released] held == old(held)
+
+//@ func (*MemoryStore).InvalidateDeviceCodeSession
+//@   requires store_wf(s) && held[addr(s.deviceAuthsRequestIDsMutex)] == 0 && held[addr(s.deviceAuthsMutex)] == 0 && (forall m2 V :: held[m2] != 0 ==> mrank(m2) < 1)
+//@   modifies held
+//@   ensures [C19.locks-released] held == old(held)
+
+//@ func (*MemoryStore).CreateOpenIDConnectSession
+//@   requires store_wf(s) && held[addr(s.idSessionsMutex)] == 0 && (forall m2 V :: held[m2] != 0 ==> mrank(m2) < 2)
+//@   modifies held
+//@   ensures [C19.locks-released] held == old(held)
+
+//@ func (*MemoryStore).GetOpenIDConnectSession
+//@   requires store_wf(s) && held[addr(s.idSessionsMutex)] == 0 && (forall m2 V :: held[m2] != 0 ==> mrank(m2) < 2)
+//@   modifies held
+//@   ensures [C19.locks-released] held == old(held)
+
+//@ func (*MemoryStore).DeleteOpenIDConnectSession
+//@   requires store_wf(s) && held[addr(s.idSessionsMutex)] == 0 && (forall m2 V :: held[m2] != 0 ==> mrank(m2) < 2)
+//@   modifies held
+//@   ensures [C19.locks-released] held == old(held)
